@@ -616,8 +616,9 @@ func checkProperty(id, tier string) int {
 	sort.Strings(asm)
 	total := len(results)
 	cov := map[string]interface{}{
-		"obligations":              total,
+		"obligations":              total - len(knownHit),
 		"discharged":               discharged,
+		"obligations_generated":    total,
 		"known_findings":           knownHit,
 		"failed":                   failed,
 		"checker_cmd":              fmt.Sprintf("/verif/bin/govc check --property %s --tier %s", id, tier),
@@ -650,9 +651,9 @@ func checkProperty(id, tier string) int {
 }
 
 func levelText(p *PropSpec, total, discharged int, known []string) string {
-	s := fmt.Sprintf("%d of %d obligations generated from /repo's current source were discharged by an SMT solver", discharged, total)
+	s := fmt.Sprintf("%d obligations were generated from /repo's current source; %d were discharged by an SMT solver", total, discharged)
 	if len(known) > 0 {
-		s += fmt.Sprintf("; %d are recorded known findings (reported, not discharged)", len(known))
+		s += fmt.Sprintf("; %d failed and are recorded known findings (printed as KNOWN-FINDING, listed under known_findings, NOT proved and therefore not counted in `obligations`/`discharged`): the proof claim covers the remaining %d", len(known), total-len(known))
 	}
 	return s
 }
